@@ -3,6 +3,9 @@
    sets are discharged by computation on the constants regenerated from
    src/completion.rs on every run (Gen/GenConsts.v). *)
 From RL Require Import Utf8 Completion CompletionProofs.
+From RL Require Editor CompleteProofs LcpProofs.
+Notation lcp_all := Editor.lcp_all.
+Notation is_prefix := CompleteProofs.is_prefix.
 
 (* escaping then unescaping any name is the identity (bare and double-quote
    rules); inside single quotes nothing is escaped *)
@@ -61,6 +64,36 @@ Theorem C15_candidate_again : forall root d name ents esc brk q,
   In name (map fst (filename_complete root (d ++ name) esc brk q)).
 Proof. exact candidate_again. Qed.
 Print Assumptions C15_candidate_again.
+
+(* LONGEST COMMON PREFIX. completion.rs compares BYTES of adjacent candidates and backs the
+   count off to a character boundary of the first candidate; for every list of Rust strings
+   that is exactly the greatest common prefix taken character by character (the function
+   list-mode completion is specified with), the final slice never fails ... *)
+Theorem C15_lcp_bytes_is_lcp_chars : forall cands : list str,
+  Forall (fun c => valid_str c = true) cands -> longest_common_prefix cands = lcp_all cands.
+Proof. exact LcpProofs.longest_common_prefix_is_lcp. Qed.
+Print Assumptions C15_lcp_bytes_is_lcp_chars.
+
+(* ... so an answer is a prefix of every candidate and every common prefix is a prefix of it *)
+Theorem C15_lcp_greatest : forall (cands : list str) (p : str),
+  Forall (fun c => valid_str c = true) cands -> longest_common_prefix cands = Some p ->
+  (forall c, In c cands -> is_prefix p c)
+  /\ (forall q, (forall c, In c cands -> is_prefix q c) -> is_prefix q p).
+Proof. exact LcpProofs.longest_common_prefix_spec. Qed.
+Print Assumptions C15_lcp_greatest.
+
+(* ... and no answer means no candidates or no common first character *)
+Theorem C15_lcp_none : forall cands : list str,
+  Forall (fun c => valid_str c = true) cands -> longest_common_prefix cands = None ->
+  cands = [] \/ forall q, (forall c, In c cands -> is_prefix q c) -> q = [].
+Proof. exact LcpProofs.longest_common_prefix_none. Qed.
+Print Assumptions C15_lcp_none.
+
+(* two candidates that share the first byte of a two-byte character but not the character *)
+Example C15_lcp_example :
+  longest_common_prefix [[97; 233]%N; [97; 234; 98]%N] = Some [97%N]
+  /\ Forall (fun c => valid_str c = true) [[97; 233]%N; [97; 234; 98]%N].
+Proof. split; [vm_compute; reflexivity|repeat constructor]. Qed.
 
 Example C15_example :
   let root := [mkD [97; 32; 98]%N false []; mkD [100]%N true [([39; 36]%N, false)]] in
